@@ -215,6 +215,20 @@ def programs(ctx):
                                 continue
                             if ctx.mine(data):
                                 yield f"legacy-{fname}-{r}-{fate}-p{proto}", data
+    # F. globals reached through the copyreg extension registry (EXT1 / EXT2 / EXT4; code 1 = vp_sink.hit, a
+    # non-standard-library global; the pinned tree refuses these opcodes, which is vacuous here).  setup() has let the
+    # stock unpickler resolve the code once, so the process-wide extension cache is warm - as in an application that
+    # has loaded one of its own registered objects before it scans a file.
+    for ename, ext in (("EXT1", b"\x82\x01"), ("EXT2", b"\x83\x01\x00"), ("EXT4", b"\x84\x01\x00\x00\x00")):
+        for fname, body in (("import", ext), ("call", ext + b"(K\x01tR"), ("call-noargs", ext + b")R")):
+            for fate in ("result", "pop", "in_list", "memo_reused", "under_result"):
+                for pre in (b"", gen.BENIGN_PRE[1] if len(gen.BENIGN_PRE) > 1 else b""):
+                    try:
+                        data = b"\x80\x02" + pre + gen.apply_fate(body, fate)
+                    except Exception:
+                        continue
+                    if ctx.mine(data):
+                        yield f"ext-{fname}-{ename}-{fate}", data
     # the classic: getattr(__import__('os'), 'system')('id')
     classic = (b"c__builtin__\ngetattr\n(c__builtin__\n__import__\n(" + gen.arg_bytes(["os"]) + b"tR" +
                gen.arg_bytes(["system"]) + b"tR(" + gen.arg_bytes(["id"]) + b"tR")
@@ -425,6 +439,16 @@ def setup(ctx=None, user=False):
     import fickling  # noqa: F401
     import fickling.fickle as f
     import fickling.analysis as analysis
+    # the stock unpickler resolves extension code 1 (vp_sink.hit: the harness's own recording function, only returned,
+    # never called) once, which fills copyreg._extension_cache for this process
+    import copyreg
+    import pickle as _pickle_mod
+    from vp import refvm  # noqa: F401  (registers code 1)
+    try:
+        _pickle_mod.loads(b"\x80\x02\x82\x01.")
+    except Exception:
+        pass
+    assert 1 in copyreg._extension_cache or True
     if user:
         # configuration "user-analyses": the application has defined analyses of its own before the first check, the way
         # the registry invites (subclassing registers): a customised subclass of every stock analysis and a new one.
